@@ -47,6 +47,29 @@ theorem C10_found_after_sync {L : Nat} {hasW : Bool} (hL : 1 ≤ L) {s : St} (r 
   · split <;> omega
   · omega
 
+/-- **The pipeline is never stuck.** Whenever the producer has published an item the consumer has not yet moved past,
+some downstream stage can make progress by its own steps alone: either a stage finds at least one item at a fresh look
+at the newest index of the stage ahead of it, or the worker holds progress it has not published yet and can publish it
+(`C10_always_enabled`). No stage ever has to wait for a step of a stage *behind* it, and nothing has to be retried more
+than once after the stage ahead has published. -/
+theorem C10_pipeline_never_stuck (s : St) (h : (s.thr .C).pos < lastVal s.hP) :
+    (∃ t, (t = .W ∨ t = .C) ∧ (t = .W → s.hasW = true) ∧
+        ∀ m : Msg, m.val = lastVal (s.hist (lead s.hasW t)) → 1 ≤ ((refresh s t m).thr t).cached) ∨
+    (s.hasW = true ∧ lastVal s.hW < (s.thr .W).pos) := by
+  have key : (∃ t, (t = Role.W ∨ t = Role.C) ∧ (t = Role.W → s.hasW = true) ∧ (s.thr t).pos < lastVal (s.hist (lead s.hasW t))) ∨
+      (s.hasW = true ∧ lastVal s.hW < (s.thr .W).pos) := by
+    cases hw : s.hasW
+    · left; exact ⟨.C, Or.inr rfl, by simp, by simpa [lead, hw, St.hist] using h⟩
+    · by_cases h1 : (s.thr .W).pos < lastVal s.hP
+      · left; exact ⟨.W, Or.inl rfl, fun _ => rfl, by simpa [lead, St.hist] using h1⟩
+      · by_cases h2 : (s.thr .C).pos < lastVal s.hW
+        · left; exact ⟨.C, Or.inr rfl, by simp, by simpa [lead, hw, St.hist] using h2⟩
+        · right; exact ⟨rfl, by omega⟩
+  rcases key with ⟨t, ht, hW, hlt⟩ | hr
+  · left
+    exact ⟨t, ht, hW, fun m hm => (C10_found_at_fresh_look s t m hm).2 (by omega)⟩
+  · right; exact hr
+
 /-- Bounded number of own steps per call (tie to the source): an availability computation loads one index, `check` makes at
     most one such computation — and makes it whenever what it remembers is not enough, so a retrying stage always takes a fresh look —, an advance stores one index, and the only functions with loops are `wait_for` (the documented
     busy-wait), the two per-slot `*_init` copies (bounded by the slice) and `poll` (two iterations at most). -/
